@@ -327,7 +327,16 @@ def argument_form(draw, members):
     return form, list(seq)
 
 
+def fresh(value):
+    """An equal but not identical copy of a label (labels parsed from a file or typed by a user are never the very
+    string objects the context was built from; strings of one character are interned by CPython and stay identical)."""
+    if isinstance(value, str) and len(value) > 1:
+        return ''.join(list(value))
+    return value
+
+
 def as_form(form, seq):
+    seq = [fresh(x) for x in seq]
     if form == 'str':
         return ''.join(seq)
     if form == 'list':
